@@ -910,6 +910,17 @@ package quic
 //@   trusted tears the connection down (close path, not modelled here)
 //@   modifies nothing
 
+//@ func (h *connIDManager) SetHandshakeComplete
+//@   props C16
+//@   ensures h.handshakeComplete
+//@   modifies h.handshakeComplete
+// The stateless reset token of the connection ID in use is registered with the transport exactly when it becomes known
+// (C16: the registered tokens are those of the IDs in use).
+//@ func (h *connIDManager) SetStatelessResetToken
+//@   props C16
+//@   panics when h.closed || h.activeSequenceNumber != 0
+//@   ensures [token-of-the-first-id-recorded-and-registered] h.activeStatelessResetToken != nil && called("field:addStatelessResetToken") == 1 && forall(k, 0, 16, (*h.activeStatelessResetToken)[k] == token[k])
+//@   modifies h.activeStatelessResetToken
 //@ func (h *connIDManager) ChangeInitialConnID
 //@   props C16
 //@   panics when h.activeSequenceNumber != 0
@@ -1402,6 +1413,88 @@ package quic
 //@ loop (c *Conn) handleCryptoFrame #0
 //@   invariant [one-hand-over-per-piece] called("(quic.cryptoStreamHandler).HandleMessage") == called("(*cryptoStreamManager).GetCryptoData") && called("(*Conn).handleHandshakeEvents") == 0
 //@   modifies everything
+// Handshake confirmation (C13): both handshake number spaces are dropped, Initial first (a misbehaving server must not be
+// able to keep the client's Initial keys alive past confirmation), then the flag is set and the TLS stack told — in that
+// order, and nothing of it on an error. HANDSHAKE_DONE and NEW_TOKEN are server-to-client only: a server that receives one
+// answers PROTOCOL_VIOLATION and changes nothing; a client confirms at most once.
+//@ iface (h quic.cryptoStreamHandler) SetHandshakeConfirmed
+//@   modifies nothing
+//@ iface (m quic.mtuDiscoverer) Start
+//@   modifies nothing
+//@ func (c *Conn) handleHandshakeConfirmed
+//@   props C13
+//@   requires c.cryptoStreamHandler != nil && c.config != nil && c.conn != nil
+//@   ensures [both-handshake-levels-dropped-initial-first] implies(result == nil, called("(*Conn).dropEncryptionLevel") == 2 && callarg("(*Conn).dropEncryptionLevel", 0, 1) == 1 && callarg("(*Conn).dropEncryptionLevel", 1, 1) == 2 && c.handshakeConfirmed && called("(quic.cryptoStreamHandler).SetHandshakeConfirmed") == 1)
+//@   ensures [nothing-confirmed-on-error] implies(result != nil, c.handshakeConfirmed == old(c.handshakeConfirmed) && called("(quic.cryptoStreamHandler).SetHandshakeConfirmed") == 0)
+//@   modifies c.droppedInitialKeys, c.handshakeConfirmed
+//@ func (c *Conn) handleHandshakeDoneFrame
+//@   props C13
+//@   requires c.cryptoStreamHandler != nil && c.config != nil && c.conn != nil
+//@   ensures [a-server-rejects-handshake-done] implies(c.perspective == protocol.PerspectiveServer, iserr(result, qerr.ProtocolViolation) && called("(*Conn).handleHandshakeConfirmed") == 0 && c.handshakeConfirmed == old(c.handshakeConfirmed))
+//@   ensures [a-client-confirms-at-most-once] implies(c.perspective != protocol.PerspectiveServer, called("(*Conn).handleHandshakeConfirmed") == ite(old(c.handshakeConfirmed), 0, 1))
+//@   modifies c.droppedInitialKeys, c.handshakeConfirmed
+//@ iface (h ackhandler.SentPacketHandler) ReceivedAck
+//@   modifies nothing
+//@ iface (h ackhandler.SentPacketHandler) SetMaxDatagramSize
+//@   modifies nothing
+//@ iface (m quic.mtuDiscoverer) CurrentSize
+//@   modifies nothing
+//@ iface (h quic.cryptoStreamHandler) SetLargest1RTTAcked
+//@   modifies nothing
+//@ func (c *Conn) handleAckFrame#impl
+//@   props C13 C06
+//@   requires c.sentPacketHandler != nil && c.cryptoStreamHandler != nil && c.config != nil && c.conn != nil && frame != nil && len(frame.AckRanges) >= 1
+//@   let ackErr = lastresult("(ackhandler.SentPacketHandler).ReceivedAck", 1)
+//@   let acked1RTT = lastresult("(ackhandler.SentPacketHandler).ReceivedAck", 0)
+//@   ensures [every-ack-goes-to-the-sent-packet-handler-with-its-level] called("(ackhandler.SentPacketHandler).ReceivedAck") == 1 && callarg("(ackhandler.SentPacketHandler).ReceivedAck", 0, 1) == frame && callarg("(ackhandler.SentPacketHandler).ReceivedAck", 0, 2) == encLevel
+//@   ensures [a-rejected-ack-closes-the-connection-and-confirms-nothing] implies(ackErr != nil, result != nil && called("(*Conn).handleHandshakeConfirmed") == 0)
+//@   ensures [only-an-acknowledged-1rtt-packet-confirms-and-only-on-the-client] called("(*Conn).handleHandshakeConfirmed") == ite(ackErr == nil && acked1RTT && c.perspective == protocol.PerspectiveClient && !old(c.handshakeConfirmed), 1, 0)
+//@   modifies everything
+// handleFrame: every received frame is routed, exactly once, to the component that enforces its rules — CRYPTO to the
+// crypto streams at the packet's level, MAX_DATA to the connection flow controller with the advertised value, the stream
+// frames to the streams map, NEW_CONNECTION_ID / RETIRE_CONNECTION_ID to the connection-ID manager / generator,
+// NEW_TOKEN and HANDSHAKE_DONE to the handlers that reject them on a server. (Callers use the trusted frame contract of
+// handleFrame; this is its body.)
+//@ func (c *Conn) handleConnectionCloseFrame
+//@   trusted records the peer's close reason and ends the run loop (channel); as a callee of handleFrame only its frame is used
+//@   modifies everything
+//@ func (c *Conn) handlePathResponseFrame
+//@   trusted dispatch to the path managers (atomic pointers); as a callee of handleFrame only its frame is used
+//@   modifies everything
+//@ iface (f flowcontrol.ConnectionFlowController) UpdateSendWindow
+//@   modifies nothing
+//@ func (c *Conn) handlePathChallengeFrame
+//@   trusted a client queues a PATH_RESPONSE with the same data (function-valued queue); as a callee of handleFrame only its frame is used
+//@   modifies nothing
+//@ func (c *Conn) handleFrame#impl
+//@   props C13 C04 C16 C03
+//@   requires c.streamsMap != nil && c.connFlowController != nil && c.connIDManager != nil && c.connIDGenerator != nil && c.rttStats != nil && f != nil
+//@   requires c.cryptoStreamManager != nil && c.cryptoStreamHandler != nil && c.config != nil && c.conn != nil
+//@   requires c.connIDManager.qInv() && !c.connIDManager.closed
+//@   requires c.connIDGenerator.activeSrcConnIDs != nil && c.connIDGenerator.highestSeq < 4611686018427387903 && c.connIDGenerator.statelessResetter != nil && forall(k, uint64, implies(k > c.connIDGenerator.highestSeq, !has(c.connIDGenerator.activeSrcConnIDs, k)))
+//@   requires implies(typeis(f, *wire.NewConnectionIDFrame), dyn(f, *wire.NewConnectionIDFrame) != nil && dyn(f, *wire.NewConnectionIDFrame).RetirePriorTo <= dyn(f, *wire.NewConnectionIDFrame).SequenceNumber)
+//@   requires c.streamsMap.smInv() && forall(k, 0, len(c.connIDManager.queue), c.connIDManager.queue[k].SequenceNumber >= c.connIDManager.highestRetired, trig(c.connIDManager.queue, k))
+//@   requires implies(typeis(f, *wire.ResetStreamFrame), dyn(f, *wire.ResetStreamFrame) != nil && 0 <= dyn(f, *wire.ResetStreamFrame).StreamID && dyn(f, *wire.ResetStreamFrame).StreamID <= 4611686018427387903)
+//@   requires implies(typeis(f, *wire.MaxStreamDataFrame), dyn(f, *wire.MaxStreamDataFrame) != nil && 0 <= dyn(f, *wire.MaxStreamDataFrame).StreamID && dyn(f, *wire.MaxStreamDataFrame).StreamID <= 4611686018427387903)
+//@   requires implies(typeis(f, *wire.StreamDataBlockedFrame), dyn(f, *wire.StreamDataBlockedFrame) != nil && 0 <= dyn(f, *wire.StreamDataBlockedFrame).StreamID && dyn(f, *wire.StreamDataBlockedFrame).StreamID <= 4611686018427387903)
+//@   requires implies(typeis(f, *wire.StopSendingFrame), dyn(f, *wire.StopSendingFrame) != nil && 0 <= dyn(f, *wire.StopSendingFrame).StreamID && dyn(f, *wire.StopSendingFrame).StreamID <= 4611686018427387903)
+//@   requires implies(typeis(f, *wire.MaxStreamsFrame), dyn(f, *wire.MaxStreamsFrame) != nil && 0 <= dyn(f, *wire.MaxStreamsFrame).MaxStreamNum && dyn(f, *wire.MaxStreamsFrame).MaxStreamNum <= 1152921504606846976 && (dyn(f, *wire.MaxStreamsFrame).Type == protocol.StreamTypeUni || dyn(f, *wire.MaxStreamsFrame).Type == protocol.StreamTypeBidi))
+//@   requires implies(typeis(f, *wire.NewTokenFrame), dyn(f, *wire.NewTokenFrame) != nil) && implies(typeis(f, *wire.MaxDataFrame), dyn(f, *wire.MaxDataFrame) != nil) && implies(typeis(f, *wire.RetireConnectionIDFrame), dyn(f, *wire.RetireConnectionIDFrame) != nil) && implies(typeis(f, *wire.PathChallengeFrame), dyn(f, *wire.PathChallengeFrame) != nil)
+//@   ensures [crypto-to-the-crypto-streams-at-the-packets-level] iff(typeis(f, *wire.CryptoFrame), called("(*Conn).handleCryptoFrame") == 1) && implies(typeis(f, *wire.CryptoFrame), callarg("(*Conn).handleCryptoFrame", 0, 2) == encLevel && callarg("(*Conn).handleCryptoFrame", 0, 1) == dyn(f, *wire.CryptoFrame))
+//@   ensures [max-data-raises-the-connection-send-window] iff(typeis(f, *wire.MaxDataFrame), called("(flowcontrol.ConnectionFlowController).UpdateSendWindow") == 1) && implies(typeis(f, *wire.MaxDataFrame), callarg("(flowcontrol.ConnectionFlowController).UpdateSendWindow", 0, 1) == dyn(f, *wire.MaxDataFrame).MaximumData)
+//@   ensures [stream-frames-to-the-streams-map] iff(typeis(f, *wire.ResetStreamFrame), called("(*streamsMap).HandleResetStreamFrame") == 1) && iff(typeis(f, *wire.MaxStreamDataFrame), called("(*streamsMap).HandleMaxStreamDataFrame") == 1) && iff(typeis(f, *wire.MaxStreamsFrame), called("(*streamsMap).HandleMaxStreamsFrame") == 1) && iff(typeis(f, *wire.StreamDataBlockedFrame), called("(*streamsMap).HandleStreamDataBlockedFrame") == 1) && iff(typeis(f, *wire.StopSendingFrame), called("(*streamsMap).HandleStopSendingFrame") == 1)
+//@   ensures [connection-id-frames-to-manager-and-generator] iff(typeis(f, *wire.NewConnectionIDFrame), called("(*connIDManager).Add") == 1) && iff(typeis(f, *wire.RetireConnectionIDFrame), called("(*connIDGenerator).Retire") == 1) && implies(typeis(f, *wire.RetireConnectionIDFrame), callarg("(*connIDGenerator).Retire", 0, 1) == dyn(f, *wire.RetireConnectionIDFrame).SequenceNumber)
+//@   ensures [server-only-frames-to-their-guards] iff(typeis(f, *wire.NewTokenFrame), called("(*Conn).handleNewTokenFrame") == 1) && iff(typeis(f, *wire.HandshakeDoneFrame), called("(*Conn).handleHandshakeDoneFrame") == 1) && iff(typeis(f, *wire.ConnectionCloseFrame), called("(*Conn).handleConnectionCloseFrame") == 1) && iff(typeis(f, *wire.PathResponseFrame), called("(*Conn).handlePathResponseFrame") == 1)
+//@   ensures [path-challenge-handed-back] iff(typeis(f, *wire.PathChallengeFrame), result0 != nil)
+//@   modifies everything
+//@ iface (s quic.TokenStore) Put
+//@   modifies nothing
+//@ func (c *Conn) handleNewTokenFrame
+//@   props C14 C13
+//@   requires c.config != nil && c.rttStats != nil && frame != nil
+//@   ensures [a-server-rejects-new-token] implies(c.perspective == protocol.PerspectiveServer, iserr(result, qerr.ProtocolViolation) && called("(quic.TokenStore).Put") == 0)
+//@   ensures [a-client-stores-the-token-under-its-server-key] implies(c.perspective != protocol.PerspectiveServer, result == nil && called("(quic.TokenStore).Put") == ite(c.config.TokenStore != nil, 1, 0) && implies(c.config.TokenStore != nil, callarg("(quic.TokenStore).Put", 0, 1) == c.tokenStoreKey))
+//@   modifies nothing
 //@ func (m *cryptoStreamManager) Drop
 //@   props C13 C03
 //@   requires m.initialStream != nil && m.handshakeStream != nil
